@@ -33,7 +33,7 @@ def main():
     wt = os.path.join(base, "wt")
     rec = {"name": meta.get("name"), "checks": {}}
     try:
-        r = sh(["git", "-C", "/repo", "worktree", "add", "-q", "--detach", wt, "HEAD"])
+        r = sh(["git", "-C", "/repo", "worktree", "add", "-q", "--detach", wt, os.environ.get("SEED_BASE", "HEAD")])
         r = sh(["git", "-C", wt, "apply", os.path.join(d, "patch.diff")])
         if r.returncode != 0:
             print("patch does not apply", r.stderr)
